@@ -57,3 +57,30 @@ reg('C02', module='c02', level='exploration',
              'thorough': {'values_compared': 20000, 'contract_evals': 20000,
                           'satisfies_compared': 2000,
                           'nocompletion_values_checked': 200}})
+
+reg('C03', module='c03', level='exploration',
+    technique=('runtime monitoring: application matrix of every public '
+               'constructor vs independent typing rules + create_node '
+               'wrapper typing every node born in any workload'),
+    rule=('every FormulaManager constructor x every tuple of argument sorts '
+          '(11 sorts; arity<=2 complete, arity 3/4 sampled in quick, larger '
+          'in thorough) x index parameters; each application is attempted '
+          'twice; distinct = (constructor, sort tuple); plus a mixed '
+          'transformation workload under the create_node monitor'),
+    level_text=('outcome (formula vs exception) and reported type of each '
+                'application are compared with independently written typing '
+                'rules; every FNode created anywhere is re-typed from its '
+                'children by the create_node monitor. Held on the '
+                'applications/nodes reported.'),
+    level_note=('trusts vf/bp.py typing rules (SMT-LIB signatures; pySMT '
+                'documented signature for Pow/BVComp/bv2nat/array values); '
+                'unary n-ary applications, negative rotation and repeat<=0 '
+                'are outside the property text and not judged'),
+    assumptions=['arguments are terms (no function-typed operands)',
+                 'any exception type counts as rejection'],
+    require={'quick': {'rejections_observed': 5000,
+                       'acceptances_observed': 500,
+                       'nodes_typed_by_create_node_monitor': 5000},
+             'thorough': {'rejections_observed': 50000,
+                          'acceptances_observed': 2000,
+                          'nodes_typed_by_create_node_monitor': 100000}})
